@@ -1,6 +1,7 @@
 CONSTANTS
   V = {}
   MaxN = 4
+  Vary = FALSE
   Depth = 12
   Cover = TRUE
 SPECIFICATION GSpec
